@@ -57,7 +57,8 @@ def main():
             "a": {"a": "Observe", "n": 1, "o": {"t": "d", "d": {"A": {"t": "i", "i": 1}}},
                   "eval": {"ok": True, "v": {"t": "i", "i": 1}}, "validate": {"ok": True},
                   "keys": {"ok": True, "ks": [["A"]]}, "explain": {"ok": True, "ks": [["A"]]},
-                  "mentions": [["A"]], "reads": [["A"]], "raises": []}}
+                  "mentions": [["A"]], "reads": [["A"]], "raises": [],
+                  "set0": {"t": "d", "d": {"A": {"t": "i", "i": 0}}}}}
     r = verdicts.judge_c04(case, lab)
     expect("replay: Option('A')({'A': 1}) conforms to the specification's case", not r.violations)
     flipped = copy.deepcopy(case)
